@@ -23,6 +23,8 @@ struct Case {
   notifier_pos: Option<Bin>,
   n_mid: usize,
   pcase: PCase,
+  /// length of one tick in ns
+  unit: u64,
 }
 
 fn gen_mid(c: &mut dyn Choices) -> Un {
@@ -71,11 +73,10 @@ fn gen_case(c: &mut dyn Choices) -> Case {
   // (appended picks) one case in five: the producer is the MAIN input of a two-input operator whose second input
   // is a hot subject (a gate that may stay silent), and the stream is ended by something else downstream:
   // take_until(stop) with a hot stop, or a cold sibling of a merge that fills a take at subscription
-  if c.pick(5) == 4 {
-    gen_gated(c)
-  } else {
-    case
-  }
+  let mut case = if c.pick(5) == 4 { gen_gated(c) } else { case };
+  // (appended pick) a quarter of the cases measure time in units of 0.7 s or 1 s + 1 ns
+  case.unit = *c.one_of(&[1u64, 1, 1, 1, 1, 1, 700_000_000, 1_000_000_001]);
+  case
 }
 
 fn gen_gated(c: &mut dyn Choices) -> Case {
@@ -115,7 +116,7 @@ fn gen_gated(c: &mut dyn Choices) -> Case {
     });
   }
   // the gating operator counts as an intermediate operator
-  Case { producer, notifier_pos: None, n_mid: n_mid + 1, pcase: PCase { node, kinds: vec![IKind::Subject, IKind::Subject], script, mode: SchedMode::Fifo, threads: c.pick(3) == 0 } }
+  Case { unit: 1, producer, notifier_pos: None, n_mid: n_mid + 1, pcase: PCase { node, kinds: vec![IKind::Subject, IKind::Subject], script, mode: SchedMode::Fifo, threads: c.pick(3) == 0 } }
 }
 
 fn gen_case_with(c: &mut dyn Choices, late: bool) -> Case {
@@ -173,7 +174,7 @@ fn gen_case_with(c: &mut dyn Choices, late: bool) -> Case {
       script.push(Step::Advance(if late { 20 + c.pick(60) as u64 } else { 1 + c.pick(3) as u64 }));
     }
   }
-  Case { producer, notifier_pos, n_mid, pcase: PCase { node, kinds: vec![IKind::Subject], script, mode: SchedMode::Fifo, threads: c.pick(3) == 0 } }
+  Case { unit: 1, producer, notifier_pos, n_mid, pcase: PCase { node, kinds: vec![IKind::Subject], script, mode: SchedMode::Fifo, threads: c.pick(3) == 0 } }
 }
 
 fn producer_name(s: &Src) -> &'static str {
@@ -195,6 +196,7 @@ fn run_case(c: &mut dyn Choices, ctx: &Ctx) -> Outcome {
   if (ctx.known("not-retired:from_iter:main") && pname == "from_iter") || (ctx.known("not-retired:from_stream:main") && pname == "from_stream") {
     return Outcome { labels: vec!["excluded-known"], ..Outcome::discard() };
   }
+  crate::vtime::set_unit(case.unit);
   let res = run_pcase(&case.pcase, false);
   let mut labels: Vec<&'static str> = vec![pname];
   labels.push(if case.notifier_pos.is_some() { "pos:second-input" } else { "pos:main" });
@@ -249,6 +251,7 @@ fn run_case(c: &mut dyn Choices, ctx: &Ctx) -> Outcome {
   };
   let desc = if ctx.want_desc || matches!(verdict, Verdict::Violation { .. }) {
     let mut j = pcase_json(&case.pcase);
+    j["tick_ns"] = json!(case.unit);
     j["delivered"] = res.as_ref().map(|t| json!(t.short())).unwrap_or_else(|m| json!({ "panic": m }));
     if let Ok(t) = &res {
       j["iter_pulls(at terminal, end)"] = json!([t.counters_at_terminal.as_ref().map(|c| c.iter_pulls), t.counters.iter_pulls]);
